@@ -549,6 +549,8 @@ func bnUpper(c *Ctx, a *flAgg) {
 					if why != "" {
 						proved++
 						a.ok("BN-upper", key, why, ins.Pos())
+					} else if kind == "beyond" {
+						a.bad("BN-upper", key, "the index is the length of the indexed value (or more): out of range for every input", ins.Pos())
 					} else if kind == "look-ahead" {
 						a.bad("BN-upper", key, "look-ahead index: nothing on the way guarantees that it is below the length (the loop or guard only covers the un-shifted index)", ins.Pos())
 					} else {
@@ -613,6 +615,28 @@ func (a *bnAn) indexKind(idx, coll ssa.Value, b *ssa.BasicBlock) (string, ssa.Va
 			return "", nil
 		}
 		return "parallel", y
+	}
+	// x[len(x)], x[len(x)+k], x[len(x)-0]: at or beyond the end whatever the length
+	{
+		v, off := idx, int64(0)
+		for depth := 0; depth < 4; depth++ {
+			bo, ok := v.(*ssa.BinOp)
+			if !ok || (bo.Op != token.ADD && bo.Op != token.SUB) {
+				break
+			}
+			k, isC := bnConst(bo.Y)
+			if !isC {
+				break
+			}
+			if bo.Op == token.SUB {
+				k = -k
+			}
+			off += k
+			v = bo.X
+		}
+		if S := bnLenOf(v); S != nil && a.sameVal(S, coll) && off >= 0 {
+			return "beyond", nil
+		}
 	}
 	if bo, ok := idx.(*ssa.BinOp); ok && (bo.Op == token.ADD || bo.Op == token.SUB) {
 		if k, ok := bnConst(bo.Y); ok {
